@@ -83,13 +83,21 @@ fn rg_json(t: &mut Tape) -> Vec<u8> {
 fn gen_scenario(t: &mut Tape) -> Scenario {
     let other_parents: [&[&str]; 5] = [&["git", "show"], &["git", "blame", "zz.py"], &["rg", "bar"], &["git", "verif-neutral"], &["git", "log", "-p"]];
     match t.weighted(&[2, 2, 2, 2, 2, 4, 3, 3, 3, 3]) {
-        0 => Scenario { name: "guess:git-grep", parent: sv(&["git", "grep", "foo"]), launched: vec![], content: grep_lines(t), opts: vec![] },
+        0 => {
+            let o = if t.coin() { sv(&["--hyperlinks"]) } else { vec![] };
+            Scenario { name: "guess:git-grep", parent: sv(&["git", "grep", "foo"]), launched: vec![], content: grep_lines(t), opts: o }
+        }
         1 => Scenario { name: "guess:rg", parent: sv(&["rg", "foo"]), launched: vec![], content: grep_lines(t), opts: vec![] },
         2 => Scenario { name: "guess:git-blame", parent: sv(&["git", "blame", "src/x.rs"]), launched: vec![], content: blame_lines(t), opts: vec![] },
         3 => Scenario { name: "guess:git-show-file", parent: sv(&["git", "show", "HEAD:src/x.rs"]), launched: vec![], content: rust_file(t), opts: vec![] },
         4 => Scenario { name: "guess:git-diff-word-diff", parent: sv(&["git", "diff", "--word-diff=color"]), launched: vec![], content: word_diff(t), opts: vec![] },
         5 => Scenario { name: "known:delta-rg", parent: sv(other_parents[t.below(other_parents.len())]), launched: sv(&["rg", "foo"]), content: rg_json(t), opts: vec![] },
-        6 => Scenario { name: "known:delta-git-grep", parent: sv(other_parents[t.below(other_parents.len())]), launched: sv(&["git", "grep", "foo"]), content: grep_lines(t), opts: vec![] },
+        6 => {
+            // (with --hyperlinks the grep line writer asks for the calling process a second time
+            // while rendering one line)
+            let o = if t.coin() { sv(&["--hyperlinks"]) } else { vec![] };
+            Scenario { name: "known:delta-git-grep", parent: sv(other_parents[t.below(other_parents.len())]), launched: sv(&["git", "grep", "foo"]), content: grep_lines(t), opts: o }
+        }
         8 => {
             // a launched word diff: the word-diff test is the first question delta asks about its
             // caller (side-by-side and line numbers are switched off for word diffs)
